@@ -74,9 +74,10 @@ PROPS = {
     ),
     "C10": dict(
         lean_props="Receptor.Props.C10",
-        engines=[dict(engine="pkt", pkg=NETC, test="TestVerifPkt", n_quick=400, n_thorough=3000)],
-        corr_ops={"pkt": ["handle", "walk"]},
-        facts=["fwd_expire_test", "fwd_decrement", "fwd_notice_guard", "fwd_order", "fwd_sendmessage_budget"],
+        engines=[dict(engine="pkt", pkg=NETC, test="TestVerifPkt", n_quick=400, n_thorough=3000),
+                 dict(engine="ping", pkg=NETC, test="TestVerifPing", n_quick=3, n_thorough=30)],
+        corr_ops={"pkt": ["handle", "walk"], "ping": ["burst"]},
+        facts=["fwd_expire_test", "fwd_decrement", "fwd_notice_guard", "fwd_order", "fwd_sendmessage_budget", "ping_order"],
         trusted=["Ping/Traceroute client code (interprets notices) is exercised by the mesh engine, not modelled line by line"],
         assumptions=["hop budget is a byte (0..255)"],
     ),
